@@ -169,7 +169,7 @@ SearchProps(S) ==
   ELSE JoinAll(<<
          C01(E, l),
          PerHit(E.hits, LAMBDA h : C02Hit(h, S, l)),
-         C02Alt(E, S, l),
+         C02Alt(E, S, l), C09Alt(E, S, l),
          PerHit(E.hits, LAMBDA h : C09Hit(h, E, S, l)),
          PerHit(E.hits, LAMBDA h : C05Hit(h, E, S, l)),
          C06Basic(E, S, l), C06Rel(E, S, l), C07Rel(E, S, l),
@@ -195,7 +195,10 @@ TvSearch ==
           Step(SearchProps(S), WithS(E.sid, s2),
                Check(CacheAllowed(S.s), l, "L2", "cached top-rated list is not a top-`limit` list of the records")
                \o ProjDrift(s2, l) \o StageDrift(S))
-  /\ mem' = IF Has(E, "tag") /\ Has(E, "hits") THEN [x \in DOMAIN mem \cup {E.tag} |-> IF x = E.tag THEN [hits |-> E.hits, q |-> E.q, sid |-> E.sid] ELSE mem[x]] ELSE mem
+  /\ mem' = IF Has(E, "tag") /\ Has(E, "hits") THEN [x \in DOMAIN mem \cup {E.tag} |-> IF x = E.tag THEN [hits |-> E.hits, q |-> E.q, sid |-> E.sid,
+                                                  fresh |-> IF Has(E, "fresh_hits") THEN <<E.fresh_hits>> ELSE <<>>,
+                                                  rel |-> IF Has(E, "singles") /\ Has(E, "unlimited")
+                                                            THEN <<[singles |-> E.singles, unlimited |-> E.unlimited]>> ELSE <<>>] ELSE mem[x]] ELSE mem
   /\ UNCHANGED <<cs, reg>>
 
 \* C18: the candidate list of the trigram index, against gram sets recomputed from the public tokenisation
@@ -266,6 +269,11 @@ RegProps(reg2, isSearch) ==
           JoinAll(<<
             ChkIf(tag \in DOMAIN mem /\ mem[tag].q = E.q /\ mem[tag].sid = Twin(E.id) /\ TwinMatches(E.id, reg2[E.id]),
                   BufOf(E.id) = mem[tag].hits, l, "C20", "result buffer differs from what a stand-alone store returns"),
+            \* ... and from what a stand-alone store built from scratch with the same records, limit and markers returns
+            \* (the lock-step twin has the id's history; the statement speaks of the records, the limit and the markers)
+            ChkIf(tag \in DOMAIN mem /\ mem[tag].q = E.q /\ mem[tag].sid = Twin(E.id) /\ TwinMatches(E.id, reg2[E.id])
+                  /\ mem[tag].fresh # <<>>,
+                  BufOf(E.id) = mem[tag].fresh[1], l, "C20", "result buffer differs from what a freshly built stand-alone store returns"),
             \* what the top-level API hands out is judged like any other search result (the stand-alone twin supplies the
             \* specification's view of the records: tokenisation, limit, markers)
             IF Has(E, "qtok") /\ TwinMatches(E.id, reg2[E.id]) THEN
@@ -285,6 +293,11 @@ RegProps(reg2, isSearch) ==
                    JoinAll([i \in DOMAIN EE.hits |-> C09Hit(EE.hits[i], EE, S, l)]),
                    JoinAll([i \in DOMAIN EE.hits |-> C05Hit(EE.hits[i], EE, S, l)]),
                    C06Basic(EE, S, l), C12(EE, S, l),
+                   \* the verdicts of the records alone and the unlimited list, obtained for the stand-alone twin, judge the
+                   \* result buffer as they judge a Store's own answer
+                   IF tag \in DOMAIN mem /\ mem[tag].q = E.q /\ mem[tag].sid = Twin(E.id) /\ mem[tag].rel # <<>>
+                     THEN C06Rel([EE EXCEPT !.op = "search"] @@ [singles |-> mem[tag].rel[1].singles, unlimited |-> mem[tag].rel[1].unlimited], S, l)
+                     ELSE NoRes,
                    ChkIf(tag \in DOMAIN mem /\ mem[tag].q = E.q /\ mem[tag].sid = Twin(E.id),
                          BufOf(E.id) = mem[tag].hits, l, "C10", "top-level search differs from the same search on a stand-alone store") >>)
             ELSE NoRes >>)
